@@ -84,15 +84,18 @@ def get(name):
 
 
 @contextlib.contextmanager
-def installed(db):
-    """db becomes the singleton for the duration of the block."""
-    reset_globals()
+def installed(db, keep_globals=False):
+    """db becomes the singleton for the duration of the block.  keep_globals=True leaves process-wide
+    state alone (for histories that span several installs and want to see what survives them)."""
+    if not keep_globals:
+        reset_globals()
     UnitDatabase.PushSingleton(db)
     try:
         yield db
     finally:
         UnitDatabase.PopSingleton()
-        Quantity._EMPTY_QUANTITY = None
+        if not keep_globals:
+            Quantity._EMPTY_QUANTITY = None
 
 
 @contextlib.contextmanager
